@@ -463,10 +463,11 @@ class TLSRecordLayer(object):
         :rtype: iterable
         :returns: A generator; see above for details.
         """
+        # a write on an already closed connection is a caller error: report it
+        # without touching the (possibly still resumable) session
+        if self.closed:
+            raise TLSClosedConnectionError("attempt to write to closed connection")
         try:
-            if self.closed:
-                raise TLSClosedConnectionError("attempt to write to closed connection")
-
             applicationData = ApplicationData().create(bytearray(s))
             for result in self._sendMsg(applicationData, \
                                         randomizeFirstBlock=True):
